@@ -8,7 +8,7 @@ from .. import lifecycle as L
 from .. import program as P
 
 PROPS = ["C18"]
-OBL = ["handler-alive", "without-signals", "ignored-signals", "error-class", "restored-at-return", "no-dead-end"]
+OBL = ["handler-alive", "signals-count-at-select", "without-signals", "ignored-signals", "error-class", "restored-at-return", "no-dead-end"]
 TRUSTED = [
     "model half: skeleton Model/Skel.v (signal handler goroutine: SIGINT -> interrupt, SIGTERM -> quit, ignore flag, handler absent without the option's consent) with guards computed from gen/Signals.v facts and gen/Lifecycle.v call lists; renderer size adoption Model/Renderer.r_window_size",
     "OS half (exercised, not proved): signal delivery, signal.Notify, TIOCGWINSZ / TIOCSWINSZ, SIGWINCH, termios: every scenario runs one Program in its own child process on a pseudo-terminal pair (/dev/ptmx) and signals are sent only after the handler goroutine had time to register (the script waits for the program to be idle first)",
